@@ -335,8 +335,19 @@ impl<'a> Client<'a> {
                                "context": {"includeDeclaration": true}})
                     }
                     ReqKind::InlayHint => {
-                        json!({"textDocument": doc,
-                               "range": {"start": {"line":0,"character":0}, "end": self.end_position(path)}})
+                        // offset 0: the whole document; an even offset: from the start up to
+                        // it; an odd one: from it to the end (partial ranges, as a scrolling
+                        // editor asks for - here also with ends inside a token)
+                        let len = self.open.get(path).map(|t| t.len()).unwrap_or(0) as u32;
+                        let o = (*offset).min(len);
+                        let (st, en) = if o == 0 {
+                            (json!({"line":0,"character":0}), self.end_position(path))
+                        } else if o % 2 == 0 {
+                            (json!({"line":0,"character":0}), self.position(path, o))
+                        } else {
+                            (self.position(path, o), self.end_position(path))
+                        };
+                        json!({"textDocument": doc, "range": {"start": st, "end": en}})
                     }
                 };
                 let id = self.request(kind.method(), params, Some(idx));
